@@ -54,8 +54,7 @@ Definition compat_r (cfg : bool) (a : rarg) (k : lkind) (t : targ) : bool :=
       | _, _ => false
       end)
   && (negb (r_disc a) || negb (t_cont t))                       (* discontinuous metadata => discontinuous field *)
-  && (negb (t_ghwc t) || r_auw a)                               (* GH_WRITE-continuous kernel => all updates are writes *)
-  && (match r_acc a with AReadWrite => r_disc a | _ => true end) (* GH_READWRITE only on discontinuous spaces *)
+  && (match r_acc a with AReadWrite => r_disc a || r_dofkern a | _ => true end) (* GH_READWRITE: discontinuous spaces, or pointwise (built-ins) *)
   && (match r_acc a with AInc | AReadWrite | AReadInc => negb (r_auw a) | _ => true end)
   && (match r_stencil a with Some _ => access_eqb (r_acc a) ARead && is_cells k | None => true end)
   && Bool.eqb (r_dofkern a) (negb (is_cells k))
@@ -71,12 +70,12 @@ Definition read_gap (a : rarg) (t : targ) : bool :=
   access_eqb (r_acc a) ARead && r_auw a && negb (t_ghwc t) && t_cont t &&
   match r_ub a, r_stencil a with BNcells, None => true | _, _ => false end.
 
-Lemma and10 : forall a b c d e f g h i j : bool,
-  a && b && c && d && e && f && g && h && i && j = true ->
+Lemma and9 : forall a b c d e f g h i : bool,
+  a && b && c && d && e && f && g && h && i = true ->
   a = true /\ b = true /\ c = true /\ d = true /\ e = true /\ f = true /\ g = true /\ h = true /\
-  i = true /\ j = true.
+  i = true.
 Proof.
-  intros a b c d e f g h i j H.
+  intros a b c d e f g h i H.
   repeat (apply andb_prop in H; destruct H as [H ?]). repeat split; assumption.
 Qed.
 
@@ -90,6 +89,7 @@ Ltac fixbools :=
   repeat match goal with
          | H : negb ?x = true |- _ => apply negb_true_iff in H; subst x
          | H : ?x && true = false |- _ => rewrite andb_true_r in H; subst x
+         | H : ?x || false = true |- _ => rewrite orb_false_r in H; subst x
          | H : ?x = false |- _ => is_var x; subst x
          | H : ?x = true |- _ => is_var x; subst x
          end.
@@ -122,8 +122,8 @@ Proof.
   destruct t as [tacc cont tst ghwc].
   unfold compat_r in Hc; cbn [r_acc r_ub r_ubd r_disc r_dofkern r_auw r_stencil r_fine
                               t_acc t_cont t_stencil t_ghwc] in Hc.
-  apply and10 in Hc.
-  destruct Hc as [Hacc [Hfine [Hst [Hdisc [Hgh [Hrw [Hauw [Hstc [Hdof Hub]]]]]]]]].
+  apply and9 in Hc.
+  destruct Hc as [Hacc [Hfine [Hst [Hdisc [Hrw [Hauw [Hstc [Hdof Hub]]]]]]]].
   assert (Eacc : acc = tacc) by (destruct acc, tacc; cbn in Hacc; congruence). subst tacc. clear Hacc.
   apply negb_true_iff in Hfine. subst fine.
   unfold read_gap in Hgap; cbn [r_acc r_ub r_auw r_stencil t_cont t_ghwc] in Hgap.
@@ -262,8 +262,8 @@ Proof.
   destruct t as [tacc cont tst ghwc].
   unfold compat_r in Hc; cbn [r_acc r_ub r_ubd r_disc r_dofkern r_auw r_stencil r_fine
                               t_acc t_cont t_stencil t_ghwc] in Hc.
-  apply and10 in Hc.
-  destruct Hc as [Hacc [Hfine [Hst [Hdisc [Hgh [Hrw [Hauw [Hstc [Hdof Hub]]]]]]]]].
+  apply and9 in Hc.
+  destruct Hc as [Hacc [Hfine [Hst [Hdisc [Hrw [Hauw [Hstc [Hdof Hub]]]]]]]].
   assert (Eacc : acc = tacc) by (destruct acc, tacc; cbn in Hacc; congruence). subst tacc. clear Hacc.
   unfold read_gap in Hgap; cbn [r_acc r_ub r_auw r_stencil t_cont t_ghwc] in Hgap.
   unfold lkind_of in Hk; cbn [r_ub r_ubd] in Hk.
@@ -284,7 +284,7 @@ Definition compat_w (cfg : bool) (w : warg) (k : lkind) (t : targ) : bool :=
   negb (w_fine w)
   && (negb (w_disc w) || negb (t_cont t))
   && Bool.eqb (w_cellcol w) (is_cells k)
-  && (match t_acc t with ARead => false | AReadWrite => w_disc w | _ => true end)
+  && (match t_acc t with ARead => false | AReadWrite => w_disc w || negb (w_cellcol w) | _ => true end)
   (* under COMPUTE_ANNEXED_DOFS no loop writes a continuous field on owned dofs / owned cells only with
      an increment (LFRicLoop.load: nannexed for built-ins, cell_halo(1) for increments) *)
   && (negb cfg || negb (t_cont t) ||
@@ -384,4 +384,31 @@ Proof.
            | |- context [0 <? ?x] => let E := fresh "E" in destruct (0 <? x) eqn:E;
                                      [apply N.ltb_lt in E | apply N.ltb_ge in E]
            end; cbn [eval_sd fst snd] in *; lia.
+Qed.
+
+(* With the repair of props/C22/fix.patch (the GH_WRITE special case only applies when the loop's
+   iteration-space field is not discontinuous) the condition PSyclone evaluates coincides with the ground
+   truth's kernel kind, the gap is empty and both statements hold at full strength. *)
+Lemma read_gap_closed : forall a t, r_auw a = t_ghwc t -> read_gap a t = false.
+Proof.
+  intros a t H. unfold read_gap. rewrite H. destruct (access_eqb (r_acc a) ARead); cbn [andb]; auto.
+  destruct (t_ghwc t); cbn [andb negb]; auto.
+Qed.
+
+Theorem read_access_covers_fixed_ : forall cfg a k t h d ann,
+  lkind_of (r_ub a) (r_ubd a) = Some k -> compat_r cfg a k t = true -> r_auw a = t_ghwc t ->
+  read_access a = Some h -> true_need k t = Some (d, ann) ->
+  forall M e, valid_cfg M e -> meets cfg (hr_need M e h) (eval_sd M e d, ann).
+Proof.
+  intros cfg a k t h d ann Hk Hc Hfix. apply (read_access_covers_partial_ cfg a k t h d ann Hk Hc).
+  apply read_gap_closed. exact Hfix.
+Qed.
+
+Theorem halo_read_false_sound_fixed_ : forall cfg a k t d ann,
+  lkind_of (r_ub a) (r_ubd a) = Some k -> compat_r cfg a k t = true -> r_auw a = t_ghwc t ->
+  halo_read_access cfg (larg_of a) = Some false -> true_need k t = Some (d, ann) ->
+  forall M e, eval_sd M e d = 0 /\ (ann = true -> cfg = true).
+Proof.
+  intros cfg a k t d ann Hk Hc Hfix. apply (halo_read_false_sound_ cfg a k t d ann Hk Hc).
+  apply read_gap_closed. exact Hfix.
 Qed.
